@@ -240,6 +240,9 @@ package scipipe
 // Known finding F6: the pieces that identify a task (name, path segments of the inputs, name_value of parameters and
 // tags) are concatenated without a separator before hashing, so different tasks of one process can share a temp dir.
 //@   atcall strings.Join pieces-stay-separable[C14]: $arg1 != ""
+// Different processes must get different directories even when their names look alike: the hash input starts with the
+// raw process name, not a normalised form of it.
+//@   atcall strings.Join hash-input-starts-with-the-raw-process-name[C14]: len($arg0) >= 1 && $arg0[0] == t.Name
 
 //@ func (*Task).tempDirsExist(t) (res)
 //@   props C03
